@@ -8,6 +8,13 @@ ROOT = Path(__file__).resolve().parent.parent
 sys.path.insert(0, str(ROOT))
 
 CHECKS = {
+    "C01": dict(
+        level="model_checking",
+        technique="TLA+ specs RenderLocate.tla (Render + LocateCart actions; premises and OnePerOriginal/ExactVolume/HalfCell as integer invariants) and LocateSym.tla (polar/spherical/cylindrical pipelines; RadialHalfCell, CylOne) model-checked by TLC over all lattice placements; spec->code replay; TraceLocate.tla for random non-lattice emulsions",
+        text="TLC enumerates every placement of 1-3 droplets with centres on the quarter-cell lattice (incl. outside the box on periodic axes), integer squared radii, anisotropic spacings and offsets satisfying the explicit premises, renders them and runs the locate actions; OnePerOriginal, ExactVolume, HalfCell (periodic metric), NoWinding are integer invariants. Radial grids: all squared radii 36..1600; cylindrical: on-axis droplets on the quarter lattice, with and without periodic z. Every configuration is rendered by the real code (mask must equal the spec's cell for cell, integral = covered volume) and located by the real locate_droplets (count, exact volume, rational centre of mass, bounds).",
+        note="Premises (Resolvable/Separated/InBox) are my formalisation of 'well-separated, resolvable' and are part of the spec. Cylindrical droplets are kept r+1 cell away from the z boundaries (py-pde's periodic cylindrical metric wraps the wrong component; dependency issue, see DESIGN §3 C01). Non-lattice placements only sampled (TraceLocate).",
+        ref="§3 C01",
+    ),
     "C02": dict(
         level="model_checking",
         technique="TLA+ specs LocateCart.tla (label / per-boundary-point merge / select vs declarative lifted torus components from Lattice.tla) + Overlap.tla, model-checked by TLC over every binary image of small lattices; spec->code replay; code->spec trace validation (TraceLocate.tla, TraceOverlap.tla)",
